@@ -8,8 +8,10 @@
 //        atomic operation and every lock is a pre-emption point; run it in the asan variant).  Monitor: a referenced object is
 //        never recycled (canary), an obtained object is in default state, every object is returned at the end, pool sanity.
 //        The recorded atomic operations are validated by TLC against RefTrace.tla (exactly once, never early, at counter level).
-#define private public
-#define protected public
+#ifndef VERIF_NO_PRIVATE
+# define private public
+# define protected public
+#endif
 #include "util/RefCount.h"
 #include "util/ObjectPool.h"
 #undef private
@@ -31,8 +33,11 @@ public:
 };
 DECLARE_REFTYPES(Obj);
 typedef ObjectPool<Obj, 112> Pool2;  typedef ObjectPool<Obj, 152> Pool3;
+#ifndef VERIF_NO_PRIVATE
 static_assert(Pool2::NUM_OBJECTS_PER_SLAB == 2, "slab size for 2 objects"); static_assert(Pool3::NUM_OBJECTS_PER_SLAB == 3, "slab size for 3 objects");
+#endif
 
+#ifndef VERIF_NO_PRIVATE
 // ---------------------------------------------------------------------------------------------- pool replay
 template<class P> struct PoolProbe {
    P * pool; std::map<const void *, int> slabId; int nextId;
@@ -97,10 +102,15 @@ template<class P> static int PoolReplay(const char * inFile, uint32 maxPool, con
    return 0;
 }
 
+#endif
 // ---------------------------------------------------------------------------------------------- concurrent exploration
 static std::vector<std::string> g_viol; static void Bad(const std::string & s) {if (g_viol.size() < 5) g_viol.push_back(s);}
 static bool g_record = false; static std::vector<std::string> g_lines; static std::map<const void *, int> g_objOfCounter, g_objId;
-static int ObjId(const Obj * o) {std::map<const void *, int>::iterator it = g_objId.find(o); if (it != g_objId.end()) return it->second; const int id = (int) g_objId.size()+1; g_objId[o] = id; g_objOfCounter[&o->_refCount] = id; return id;}
+static int ObjId(const Obj * o) {std::map<const void *, int>::iterator it = g_objId.find(o); if (it != g_objId.end()) return it->second; const int id = (int) g_objId.size()+1; g_objId[o] = id;
+#ifndef VERIF_NO_PRIVATE
+   g_objOfCounter[&o->_refCount] = id;
+#endif
+   return id;}
 static void TLine(const char * e, int o) {if (g_record) {char b[96]; snprintf(b, sizeof(b), "{\"e\":\"%s\",\"t\":%d,\"o\":%d}", e, vs::tl_id+1, o); g_lines.push_back(b);}}
 class TracedPool : public Pool3 {
 public:
@@ -132,7 +142,7 @@ static void Worker(TracedPool * pool, Mailbox * mb, unsigned seed, int nOps)
             case 5: {DECLARE_MUTEXGUARD(mb->m); mb->slot = slots[a];} break;
             case 6: {ConstObjRef c = AddConstToRef(slots[a]); ObjRef back = CastAwayConstFromRef(c); CHECK(back); slots[b] = back;} break;
             case 7: {ObjRef moved(std::move(slots[a])); CHECK(moved); slots[b] = std::move(moved);} break;
-            case 8: if (slots[a]()) {ObjRef alias(slots[a](), false); alias.SetRef(slots[a](), true); CHECK(alias);} break;                    // a non-counting alias starts counting (same item): +1, and -1 when it dies
+            case 8: if (slots[a]()) {ObjRef alias; alias.SetRef(slots[a](), false); alias.SetRef(slots[a](), true); CHECK(alias);} break;                    // a non-counting alias starts counting (same item): +1, and -1 when it dies
             case 9: if (slots[a]()) {ObjRef alias(slots[a]); alias.SetRef(slots[a](), false); CHECK(alias);} break;                             // a counting alias stops counting (same item): -1 now, nothing when it dies
          }
          for (int i=0; i<3; i++) CHECK(slots[i]);
@@ -147,6 +157,9 @@ static int Explore(uint32 iters, int nt, int nops, uint32 seed0, const char * ou
    for (uint32 it=0; it<iters; it++) {
       const uint32 seed = seed0*1000003u+it;
       g_viol.clear(); g_lines.clear(); g_objOfCounter.clear(); g_objId.clear(); g_record = (tf != NULL)&&(traces < (long) ntraces);
+#ifdef VERIF_NO_PRIVATE
+      g_record = false;    // the trace needs the address of the private reference counter
+#endif
       vs::Reset(seed, vs::RANDOM); vs::S.onResume = ObserveResume; vs::S.onEvent = nullptr; vs::S.onYield = nullptr; vs::S.stickiness = (int)(seed%3)*35; vs::S.atomicLocks = false;
       TracedPool * pool = new TracedPool(seed%4); Mailbox * mb = new Mailbox;
       std::vector<std::thread> ths; for (int t=0; t<nt; t++) {ths.emplace_back(Worker, pool, mb, seed*100+t, nops); vs::WaitRegistered(t+1);}
@@ -228,7 +241,9 @@ int main(int argc, char ** argv)
 {
    CompleteSetupSystem css; vs::Install();
    if ((argc >= 6)&&(!strcmp(argv[1], "stress"))) return Stress(atoi(argv[2]), atoi(argv[3]), (uint32) atol(argv[4]), argv[5]);
+#ifndef VERIF_NO_PRIVATE
    if ((argc >= 6)&&(!strcmp(argv[1], "pool"))) return (atoi(argv[3]) == 2) ? PoolReplay<Pool2>(argv[2], (uint32) atol(argv[4]), argv[5]) : PoolReplay<Pool3>(argv[2], (uint32) atol(argv[4]), argv[5]);
+#endif
    if ((argc >= 7)&&(!strcmp(argv[1], "explore"))) return Explore((uint32) atol(argv[2]), atoi(argv[3]), atoi(argv[4]), (uint32) atol(argv[5]), argv[6], (argc > 7) ? argv[7] : NULL, (argc > 8) ? (uint32) atol(argv[8]) : 50);
    fprintf(stderr, "usage: rc pool <behaviours> <N> <maxpool> <report> | rc explore <iters> <threads> <ops> <seed> <report> [trace [n]]\n"); return 2;
 }
